@@ -20,6 +20,7 @@
 #include "EbPictureBufferDesc.h"
 
 #include "EbDecHandle.h"
+#include "EbVerifHooks.h"
 #include "EbDecBitReader.h"
 #include "EbDecProcessFrame.h"
 #include "EbDecUtils.h"
@@ -291,6 +292,8 @@ EbErrorType parse_tile(EbDecHandle *dec_handle_ptr, ParseCtxt *parse_ctx, TilesI
                 &dec_handle_ptr->main_frame_buf.cur_frame_bufs[0]
                      .dec_mt_frame_data; //multi frame Parallel 0 -> idx
             assert(sb_row >= sb_row_tile_start);
+            SVT_VERIF_HB_RELEASE(&dec_mt_frame_data->parse_recon_tile_info_array[tile_num]
+                                     .sb_recon_row_parsed[sb_row - sb_row_tile_start]);
             dec_mt_frame_data->parse_recon_tile_info_array[tile_num]
                 .sb_recon_row_parsed[sb_row - sb_row_tile_start] = 1;
         }
